@@ -53,6 +53,25 @@ Definition panic_isolated (s : st) : Prop :=
         exists s', tstep s TCons = Some s' /\ alive s' = true /\ queue s' = q'
                    /\ executed s' = executed s ++ [(c, k)] /\ escaped s' = false).
 
+(* Teardown.  The property says "every closure posted to a RUNNING scheduler is executed exactly
+   once ON THE SCHEDULER'S CONSUMER GOROUTINE".  A closure still queued when Stop is called was
+   accepted by a running scheduler; Stop does not wait for it.  What the text leaves open is
+   WHETHER it still runs (the consumer may take it before it ends, or end without it); what it
+   fixes is WHERE and HOW: by the consumer, one at a time - never by the goroutine that calls
+   Stop, never by anybody after the consumer has ended.  In the transition system:
+   the only step that executes anything is the consumer's, it executes exactly the head of the
+   queue, completely (steps are atomic: no closure runs inside or next to another); Post, Stop
+   and the consumer's exit execute nothing; once the consumer has ended nothing is ever executed
+   again, whatever is queued. *)
+Definition only_consumer_executes (s : st) : Prop :=
+  (forall t s', tstep s t = Some s' ->
+     match t with
+     | TCons => exists it, queue s = it :: queue s' /\ executed s' = executed s ++ [it]
+     | _ => executed s' = executed s
+     end)
+  /\ (alive s = false -> forall sched,
+        executed (run_sched s sched) = executed s /\ alive (run_sched s sched) = false).
+
 (* Frame: what closures panic WITH has no influence.  Two systems whose programs differ only in
    panic values, under the same schedule: the same steps are enabled, the same closures have
    run, are queued, were accepted / rejected, the consumer is alive in both or in neither. *)
